@@ -243,14 +243,14 @@ def spaces(tier, seed):
            ProductSpace('relations^4', [REL] * 4, eval_relations,
                         describe='complete {below,at,above,NaN}^4 on one interior cycle x min_n_cycles 0..2')]
     wr = WordRegions(tier)
-    if tier == 'quick':
+    if True:
         al = S.alphabet(5)
-        out.append(ProductSpace('words-W(5,5)-regions', S.word_dims(al, 5), wr, bounds={'letters': al, 'moving': 1},
+        out.append(ProductSpace('words-W(5,5)-regions', S.word_dims(al, 5), WordRegions('quick'), bounds={'letters': al, 'moving': 1},
                                 describe='pipeline tables (both centrings) x region grid of each threshold x '
                                          'min_n_cycles 0..4'))
-    else:
-        al = S.alphabet(8, seed, extra=1)
-        out.append(ProductSpace('words-W(9,5)-regions', S.word_dims(al, 5), WordRegions('quick'),
+    if tier != 'quick':
+        al = S.alphabet(6, seed, extra=1)
+        out.append(ProductSpace('words-W(7,5)-regions', S.word_dims(al, 5), WordRegions('quick'),
                                 bounds={'letters': al, 'moving': 1}))
         out.append(ProductSpace('words-W(4,5)-regions2', S.word_dims(S.alphabet(4), 5), wr,
                                 bounds={'letters': S.alphabet(4), 'moving': 2}))
